@@ -203,6 +203,15 @@ def main():
         area = getattr(mod, 'AREA', 'base')
         areas = list(getattr(mod, 'AREAS', [area]))
         pr = proof_step(pid, log, areas)
+        if tier == 'thorough' and pr['ok'] and not os.environ.get('VERIF_NO_COQCHK'):
+            # independent re-check of the compiled property file and everything it depends on
+            t0 = time.time()
+            rc_chk, out_chk = sh('timeout 3000 coqchk -silent -o -Q . CJ CJ.Properties_%s 2>&1 | tail -25' % pid, cwd=COQ, timeout=3100)
+            log.append('coqchk: %.1fs' % (time.time() - t0))
+            m_ax = re.search(r'\* Axioms:(.*?)\n\s*\n\* Constants', out_chk, re.S)
+            pr['coqchk'] = {'axioms': (m_ax.group(1).strip() if m_ax else 'unparsed'), 'ok': 'CONTEXT SUMMARY' in out_chk}
+            if not pr['coqchk']['ok']:
+                pr['ok'] = False; pr['errors'].append('coqchk failed: ' + out_chk[-800:])
         # 2. implementation (one driver per area: each area has its own handlers)
         flags = getattr(mod, 'IMPL_FLAGS', '')
         impls = {a: build_impl(tmp, log, area=a, name='impl_' + a, extra_flags=(flags.get(a, '') if isinstance(flags, dict) else flags)) for a in areas}
@@ -216,7 +225,12 @@ def main():
             cases = [mod.Case(c['line'], c.get('info', {})) for c in rp.get('cases', [])]
             ctx['replay'] = rp
         else:
-            cases = mod.corpus(ctx) + mod.generate(ctx)
+            cases = mod.corpus(ctx)
+            nseeds = int(os.environ.get('VERIF_NSEEDS', '4' if tier == 'thorough' else '1'))
+            for k in range(nseeds):     # several PRNG seeds in the thorough tier; every case carries its seed in the evidence histogram
+                ctx['seed'] = seed + k
+                cases += mod.generate(ctx)
+            ctx['seed'] = seed
         lines = [c.line for c in cases]
         def run_by_area(exes, what):
             t0 = time.time(); outs = [None] * len(cases)
@@ -316,7 +330,7 @@ def main():
                 'harness/impl_driver.c, gcc 12 -fsanitize=address,undefined, glibc',
                 'tools/gen_facts.py (constants and source facts regenerated from /repo)',
             ] + getattr(mod, 'TRUSTED_EXTRA', []),
-            'theorems': pr['theorems'], 'proof_errors': pr['errors'],
+            'theorems': pr['theorems'], 'proof_errors': pr['errors'], 'coqchk': pr.get('coqchk', 'not run in the quick tier'),
             'evaluations': len(cases), 'distinct_nontrivial': len(nontrivial),
             'traces_validated_against_impl': len(cases) - len(mism) - len(failing),
             'disagreements': len(mism), 'verdict_failures': len(failing),
